@@ -1,3 +1,5 @@
 Require Import ExtrOcamlBasic.
 Require Import SGV.Mc.McKernel.
-Extraction "c39_model.ml" run_c39_depends run_c39_mutex_pair run_c39_mutex_dep run_c39_mutex_seq run_c39_sem_seq.
+Require Import SGV.Mc.McKernel2.
+Extraction "c39_model.ml" run_c39_depends run_c39_mutex_pair run_c39_mutex_dep run_c39_mutex_seq run_c39_sem_seq
+  run_c39_bar_seq run_c39_bar_pair run_c39_comm_seq run_c39_comm_deps.
